@@ -239,8 +239,11 @@ def determined_network(draw, noise=1, dims=None, free=False, allow_cov=True, all
     for p in P[nfix:]:
         pid = p["id"]
         rec_xy = rec_z = None
+        xy_station = None
         if has_xy:
             rec_xy = draw(st.sampled_from(hz_recipes))
+            if has_z and draw(st.integers(0, 3)) == 0:
+                rec_xy = "polar3d"      # total-station observations are over-represented on purpose in 3D networks
             if rec_xy == "intersection" and len(known) < 2:
                 rec_xy = "polar"
             if rec_xy == "trilateration" and len(known) < 3:
@@ -256,6 +259,7 @@ def determined_network(draw, noise=1, dims=None, free=False, allow_cov=True, all
                 B.add(s, "direction", to=ref)
                 B.add(s, "direction", to=pid)
                 B.add(s, "distance", to=pid)
+                xy_station = s
             elif rec_xy == "intersection":
                 s1, s2 = draw(st.permutations(known))[:2]
                 for s in (s1, s2):
@@ -274,13 +278,17 @@ def determined_network(draw, noise=1, dims=None, free=False, allow_cov=True, all
                 s = draw(st.sampled_from(known))
                 B.add(s, "azimuth", to=pid)
                 B.add(s, "distance", to=pid)
+                xy_station = s
             elif rec_xy == "coords":
                 B.add_coords(pid, "xyz" if has_z and draw(st.booleans()) else "xy")
             elif rec_xy == "vector":
                 B.add_vector(draw(st.sampled_from(known)), pid)
             elif rec_xy == "polar3d":
                 # total station: direction + slope distance + zenith angle, no horizontal distance at all
-                s = draw(st.sampled_from(known))
+                # several targets from one total station are the usual case
+                prev = getattr(B, "polar3d_station", None)
+                s = prev if (prev in known and draw(st.booleans())) else draw(st.sampled_from(known))
+                B.polar3d_station = s
                 refs = [k for k in known if k != s]
                 B.add(s, "direction", to=draw(st.sampled_from(refs)))
                 B.add(s, "direction", to=pid)
@@ -303,7 +311,8 @@ def determined_network(draw, noise=1, dims=None, free=False, allow_cov=True, all
                     else:
                         B.add_dh(pid, s)
                 elif rec_z == "trig":
-                    s = draw(st.sampled_from(known))
+                    # half of the time from the station that also measured the horizontal distance (tacheometry)
+                    s = xy_station if (xy_station is not None and draw(st.booleans())) else draw(st.sampled_from(known))
                     kw = {}
                     if draw(st.booleans()):
                         kw = {"from_dh": draw(st.integers(1000, 1900)) / 1000.0, "to_dh": draw(st.integers(0, 2500)) / 1000.0}
